@@ -77,6 +77,12 @@ template<int RD, int D> void do_cast(multi::array<S, RD>& root, view_t<D>& v, st
 	else if(cast == "member_a_const") { auto const& cv = v; post_ops(cv.template member_cast<short>(&S::a), post, 0, [&](auto&& w) { dump(w, os); }); }
 	else if(cast == "reint_int_const") { auto const& cv = v; post_ops(cv.template reinterpret_array_cast<std::int32_t>(), post, 0, [&](auto&& w) { dump(w, os); }); }
 	else if(cast == "reint_short2_const") { auto const& cv = v; post_ops(cv.template reinterpret_array_cast<short>(2), post, 0, [&](auto&& w) { dump(w, os); }); }
+	else if(cast == "member_b_const") { auto const& cv = v; post_ops(cv.template member_cast<short>(&S::b), post, 0, [&](auto&& w) { dump(w, os); }); }
+	// ... and through a temporary view (the && overloads)
+	else if(cast == "member_a_rv") { post_ops(std::move(v).template member_cast<short>(&S::a), post, 0, [&](auto&& w) { dump(w, os); }); }
+	else if(cast == "member_b_rv") { post_ops(v().template member_cast<short>(&S::b), post, 0, [&](auto&& w) { dump(w, os); }); }
+	else if(cast == "reint_int_rv") { post_ops(std::move(v).template reinterpret_array_cast<std::int32_t>(), post, 0, [&](auto&& w) { dump(w, os); }); }
+	else if(cast == "reint_short2_rv") { post_ops(std::move(v).template reinterpret_array_cast<short>(2), post, 0, [&](auto&& w) { dump(w, os); }); }
 	else if(cast == "static_const") { post_ops(v.template static_array_cast<S const>(), post, 0, [&](auto&& w) { dump(w, os); }); }
 	else if(cast == "const_cast") {
 		if constexpr(D >= 2) { auto const& cv = v; post_ops(cv.template const_array_cast<S>(), post, 0, [&](auto&& w) { dump(w, os); }); }
